@@ -97,6 +97,7 @@ CLAIMED["C04"]["text"] += ' The product also has a standby variant: controller o
 CLAIMED["C14"]["text"] += ' Two more units: every ordered pair of 8 parallelism specs as an update of an admitted Job (started or not) must be refused; every combination of the three forms absent / present-but-empty / given must, if admitted, expand to the indexes of the one form that is given.'
 CLAIMED["C16"]["text"] += " One JobConfig is stored undefaulted; after every admission the JobConfigs in the webhook's informer cache must be byte-identical to what the informer stored."
 CLAIMED["C17"]["text"] += " JobConfig shapes include job templates carrying furiko's own label/annotation keys and a finalizer."
+CLAIMED["C18"]["text"] += ' Specs with three options (every ordered triple of nine option shapes x 7^3 submitted value combinations) are evaluated jointly and compared with each option evaluated alone.'
 CLAIMED["C18"]["text"] += ' The pod template also references unknown reserved-prefix variables with hyphens, slashes-free odd names and a user variable set to the empty string.'
 CLAIMED["C06"]["text"] += ' Includes a limit-1 scenario with a preemption point between the decisions for two queued Jobs.'
 CLAIMED["C07"]["text"] += " The clock also visits the instant 400 ms before every pending startAfter (a sibling Job's event causes a sync then)."
